@@ -541,7 +541,7 @@ def validate_trace(ctx, module, cfg, events, what, env=None, nexec=None, key="tr
     r.stuck_at = l
     bad = events[l - 1] if 0 < l <= len(events) else None
     if key is None:
-        return None     # the caller localises and reports the rejection
+        return r        # the caller localises and reports the rejection (r.accepted is False, r.stuck_at the event)
     ctx.violation(key, "%s: event %d is not a step of the specification: %s" % (what, l, json.dumps(bad)[:800]),
                   {"events": events[max(0, l - 8):l + 1], "index": l})
     return r
